@@ -703,7 +703,7 @@ fn run_case(c: &Case) -> Outcome {
             } else {
                 let mut order: Vec<usize> = proofs.clone();
                 order.sort_by(|a, b| proof_p(*b).partial_cmp(&proof_p(*a)).unwrap_or(std::cmp::Ordering::Equal).then(a.cmp(b)));
-                let take = (*j as usize % order.len()) + 1;
+                let take = (*j as usize).min(order.len() - 1) + 1;
                 let mut t = vec![0u64; WORDS];
                 for a in order.iter().take(take) {
                     let mut ct = vec![u64::MAX; WORDS];
@@ -779,6 +779,13 @@ fn run_case(c: &Case) -> Outcome {
     let r_total = count0.min(MAXR);
     check_result(&mut o, if huge { "hybrid_expired" } else { "hybrid" }, &format!("clock never expires (R={count0})"), &r0, tp, th);
     o.class_if(huge, "R>MAXR(sweep-sampled)");
+    o.class(match count0 {
+        0..=50 => "R:0-50",
+        51..=200 => "R:51-200",
+        201..=600 => "R:201-600",
+        601..=1200 => "R:601-1200",
+        _ => "R:>1200",
+    });
     match &r0 {
         HybridProbabilityResult::Exact { metrics, .. } if !metrics.exact_used => o.class("baseline:Exact-by-topk-exhaustion"),
         HybridProbabilityResult::Exact { .. } => o.class("baseline:Exact-by-sdd"),
@@ -1223,7 +1230,7 @@ impl Part for Dags {
         "dags"
     }
     fn cases(&self, tier: Tier) -> u32 {
-        tier.pick(1200, 30_000)
+        tier.pick(1200, 20_000)
     }
     fn strategy(&self, tier: Tier) -> BoxedStrategy<Case> {
         case_strategy(tier)
@@ -1477,11 +1484,10 @@ fn run_e2e(c: &E2eCase) -> Outcome {
             o.panic("Reasoner::infer_new_facts_with_hybrid", &site);
             return o;
         }
-        Ok(Err(e)) => {
+        Ok(Err(_)) => {
             // invalid configuration / recursion rejected: no result, nothing certified
             o.class_if(invalid_what.is_some(), "e2e:invalid-config-rejected");
             o.class_if(invalid_what.is_none(), "e2e:err");
-            let _ = e;
             return o;
         }
         Ok(Ok(x)) => x,
@@ -1492,7 +1498,6 @@ fn run_e2e(c: &E2eCase) -> Outcome {
     }
     o.class_if(!layered, "e2e:non-layered-accepted");
     let mut seen = 0u128;
-    let mut undecided = 0;
     for (t, r) in &results {
         let Some(u) = index_of(t) else {
             o.skipped.push("result-for-triple-outside-universe");
@@ -1506,14 +1511,10 @@ fn run_e2e(c: &E2eCase) -> Outcome {
             HybridProbabilityResult::Exact { metrics, .. } if metrics.exact_used => o.class("e2e:Exact-by-sdd"),
             HybridProbabilityResult::Exact { .. } => o.class("e2e:Exact-by-topk"),
             HybridProbabilityResult::Bounded { .. } => o.class("e2e:Bounded"),
-            HybridProbabilityResult::NeedsExact { .. } => {
-                undecided += 1;
-                o.class("e2e:NeedsExact")
-            }
+            HybridProbabilityResult::NeedsExact { .. } => o.class("e2e:NeedsExact"),
             _ => {}
         }
     }
-    let _ = undecided;
     // completeness is C05/C06's subject; recorded as a class only
     o.class_if(derived.iter().any(|u| seen >> u & 1 == 0), "e2e:oracle-derived-fact-without-result");
     o.class_if(new_facts.len() != results.len(), "e2e:duplicate-new-facts");
@@ -1529,12 +1530,12 @@ fn run_e2e(c: &E2eCase) -> Outcome {
 
 fn e2e_strategy(tier: Tier) -> BoxedStrategy<E2eCase> {
     let maxrules = tier.pick(4usize, 5usize);
-    (2u8..=4, prop_oneof![2 => Just(0u8), 1 => Just(1u8), 1 => Just(2u8)])
+    (prop_oneof![2 => Just(2u8), 3 => Just(3u8), 1 => Just(4u8)], prop_oneof![2 => Just(0u8), 1 => Just(1u8), 1 => Just(2u8)])
         .prop_flat_map(move |(nc, profile)| {
-            let base_pred = || prop_oneof![5 => 0u8..3, 1 => 3u8..NPRED];
+            let base_pred = || prop_oneof![8 => 0u8..2, 1 => 2u8..NPRED];
             let fact = move || (0..nc, base_pred(), 0..nc).prop_map(|(s, p, o)| FactC { s, p, o });
-            let tm = move || prop_oneof![3 => (0u8..3).prop_map(TermC::Var), 1 => (0..nc).prop_map(TermC::Const)];
-            let pat = move || (tm(), 0u8..NPRED - 1, tm()).prop_map(|(s, p, o)| PatC { s, p, o });
+            let tm = move || prop_oneof![6 => (0u8..3).prop_map(TermC::Var), 1 => (0..nc).prop_map(TermC::Const)];
+            let pat = move || (tm(), prop_oneof![5 => 0u8..2, 2 => 2u8..NPRED - 1], tm()).prop_map(|(s, p, o)| PatC { s, p, o });
             // head: terms chosen among the body's variables (selector) or a constant; predicate above all body predicates
             let rule = (vec(pat(), 1..=3), sel(), sel(), sel(), 0..nc, 0u8..4).prop_map(move |(body, hs, ho, hp, k, kind)| {
                 let vars: Vec<u8> = body.iter().flat_map(|p| [p.s.clone(), p.o.clone()]).filter_map(|t| if let TermC::Var(v) = t { Some(v) } else { None }).collect();
@@ -1551,9 +1552,9 @@ fn e2e_strategy(tier: Tier) -> BoxedStrategy<E2eCase> {
             (
                 Just(nc),
                 vec(fact(), 0..=4),
-                vec((fact(), p_strategy(profile)), 1..=6),
+                vec((fact(), p_strategy(profile)), 2..=7),
                 vec(vec((fact(), 0u8..=64), 2..=3), 0..=1),
-                vec(rule, 1..=maxrules),
+                vec(rule, 2..=maxrules),
                 cfg_strategy(),
                 prop_oneof![1 => Just(None), 2 => (sel(), nudge_code()).prop_map(Some)],
                 prop_oneof![30 => Just(None), 1 => (0u8..INVALID_KINDS).prop_map(Some)],
@@ -1570,7 +1571,7 @@ impl Part for E2e {
         "e2e"
     }
     fn cases(&self, tier: Tier) -> u32 {
-        tier.pick(800, 20_000)
+        tier.pick(3000, 60_000)
     }
     fn strategy(&self, tier: Tier) -> BoxedStrategy<E2eCase> {
         e2e_strategy(tier)
@@ -1586,9 +1587,9 @@ fn main() {
         "fault_enumeration",
         "Part `dags`: lineage DAGs over <= 12 seeds built with LineageStore::{literal,and,or,not} (or-of-conjunctions with a hub seed, subsumed proofs, long conjunctions and more cheap proofs than k; \
          and-of-disjunctions with shared sub-DAGs; random DAGs with and without `not`), seeds Independent (p in {k/16 incl. 0 and 1, k/1000, k*1e-7, 1-k*1e-7}) or members of ExclusiveGroups with dyadic probabilities summing to 1, \
-         ids permuted/strided; HybridConfig drawn from its valid ranges (threshold also = true probability / a sub-formula's probability / the probability of the j best proofs, each nudged by 0, 1 ulp .. 1e-4). \
+         ids permuted/strided; HybridConfig drawn from its valid ranges (threshold also = true probability / a sub-formula's probability / the probability of the j best proofs, each nudged by 0, +-1 ulp, +-1e-13 .. +-0.1). \
          For every case: one run of evaluate_hybrid_with_clock with a counting clock that never expires gives R readings, then one run for EVERY n in 0..=R with a clock that jumps +1h after n readings \
-         (inner evaluations), a bounded two-jump sweep (top-k deadline at n1, SDD deadline at n2), a node-budget sweep 2..=nodes+2, the same every-n sweep for compile_lineage_to_sdd_with_clock, and evaluate_topk with ample budgets. \
+         (inner evaluations; the 2-4% of cases with R > 2500 are swept at 400 evenly spaced n and counted under skipped_comparisons), a bounded two-jump sweep (top-k deadline at n1, SDD deadline at n2), a node-budget sweep 2..=nodes+2, the same every-n sweep for compile_lineage_to_sdd_with_clock, and evaluate_topk with ample budgets. \
          About 4% of the cases carry an invalid configuration (must give NeedsExact). Non-trivial = negation-free independent lineage with >= 3 minimal proofs two of which share a seed AND (k grew | cap_hit reported | an expiry strictly \
          inside the top-k phase forced the exact path); distinct = distinct case value. \
          Part `e2e`: Reasoner::infer_new_facts_with_hybrid (system clock, 20 s budgets) on acyclic positive rule programs (1-5 rules, 1-3 premises, 2-4 constants, 6 layered predicates) over certain facts, independent tagged facts, \
@@ -1599,7 +1600,13 @@ fn main() {
     s.assume("every seed referenced by the lineage is present in the snapshot (missing seeds have no defined probability); k_max <= 4096+80 (larger values only allocate); budgets are in (0, 1h) so that a 1h jump expires them");
     s.assume("the invalid-configuration rule (NeedsExact, never a decision) is taken from HybridConfig::validate and DESIGN.md, it is not part of the property sentence");
     s.assume("part e2e: rule programs are positive, filter-free, with constant layered predicates (head predicate above all body predicates) and head variables bound by the body; certain facts never coincide with a seed triple; the oracle is a naive fixpoint per world over a <= 96-fact universe; only facts that received a result are judged (completeness of the materialisation is C05/C06's subject)");
-    s.run(&Dags);
-    s.run(&E2e);
+    // C08_PART=dags|e2e restricts a run to one part (debugging aid; the default runs both)
+    let only = std::env::var("C08_PART").ok();
+    if only.as_deref().map_or(true, |p| p == "dags") {
+        s.run(&Dags);
+    }
+    if only.as_deref().map_or(true, |p| p == "e2e") {
+        s.run(&E2e);
+    }
     std::process::exit(s.finish());
 }
